@@ -15,6 +15,17 @@ for m in ("_get_value_next_state", "_calculate_updated_state_action_value", "_ca
     src = REGISTRY[f"{CV.VI}.{m}"]
     contract(f"{SA}.{m}", requires=src.requires, returns=src.returns, ensures={}, setup=None)
 
+
+def sa_config(I, shuffle):
+    """full SemiAsyncValueIterationConfig object (every dataclass field with its default from the class body), shuffle flag fixed, seed symbolic"""
+    cfgcls = I.load_module("mdpax.solvers.semi_async_value_iteration").globals["SemiAsyncValueIterationConfig"]
+    o = Obj(cfgcls, {}, label="config")
+    for n, (k, d) in I.all_fields(cfgcls).items():
+        if d is not None:
+            try: o.attrs[n] = I.ev(d, dict(k.module.globals), k.module)
+            except Exception: pass
+    o.attrs.update({"shuffle_states": shuffle, "random_seed": z3.Int("random_seed")})
+    return o
 def setup_scan(I):
     s, Pb, dims, gamma = mk_solver(I, "SemiAsyncValueIteration", "mdpax.solvers.semi_async_value_iteration")
     D, B, bs, pad = dims
@@ -117,7 +128,7 @@ def setup_update(shuffle):
         s, Pb, dims, gamma = mk_solver(I, "SemiAsyncValueIteration", "mdpax.solvers.semi_async_value_iteration")
         I.call(I.getattr(s, "_setup_jax_functions"), [], {})
         key0 = z3.Const("key_before", KEY)
-        s.attrs.update({"key": key0, "batch_order": None, "config": Obj("cfg", {"shuffle_states": shuffle}, label="config")})
+        s.attrs.update({"key": key0, "batch_order": None, "config": sa_config(I, shuffle)})
         V = SArr((N,), lambda idx: V0(toz3(idx[0])))
         c = Ctx(self=s, _args=[prepared(Pb, dims), Pb.action_space, Pb.event_space, gamma, V], dims=dims, gamma=gamma, shuffle=shuffle, key0=key0, I=I, V=V)
         I.ghost["sweep_ctx"] = c; REG_I[0] = I
@@ -188,7 +199,7 @@ def setup_sa_step(shuffle, test):
         s, Pb, dims, gamma = mk_solver(I, "SemiAsyncValueIteration", "mdpax.solvers.semi_async_value_iteration")
         I.call(I.getattr(s, "_setup_jax_functions"), [], {})
         key0 = z3.Const("key_before", KEY); V = SArr((N,), lambda idx: V0(toz3(idx[0])))
-        s.attrs.update({"key": key0, "batch_order": None, "config": Obj("cfg", {"shuffle_states": shuffle}, label="config"), "values": V, "batched_states": prepared(Pb, dims),
+        s.attrs.update({"key": key0, "batch_order": None, "config": sa_config(I, shuffle), "values": V, "batched_states": prepared(Pb, dims),
                         "_convergence_test_fn": I.getattr(s, "_get_span" if test == "span" else "_get_max_diff")})
         REG_I[0] = I
         REGISTRY[f"{SA}._update_values"].requires = req_update
@@ -219,7 +230,7 @@ def setup_sa_solve(shuffle, test):
         I.assume(z3.And(n0 >= 0, maxit >= 1, f >= 0, dec >= 0, gamma > 0, gamma <= 1))
         tr = STraj(test)
         s.attrs.update({"iteration": n0, "values": tr.opaque(n0), "key": KEYAT(n0), "batch_order": None, "batched_states": prepared(Pb, dims), "policy": None,
-                        "config": Obj("cfg", {"shuffle_states": shuffle}, label="config"), "conv_threshold": thr, "_convergence_desc": test, "convergence_format": FormatSpec(dec),
+                        "config": sa_config(I, shuffle), "conv_threshold": thr, "_convergence_desc": test, "convergence_format": FormatSpec(dec),
                         "checkpoint_frequency": f, "checkpoint_manager": Obj("CheckpointManager", {}, label="CM"),
                         "_convergence_test_fn": I.getattr(s, "_get_span" if test == "span" else "_get_max_diff")})
         I.ghost["saves"] = []; REG_I[0] = I
